@@ -172,6 +172,8 @@ def signature(case, impl_obs, model_obs):
         return "mutex:" + last.split()[1]
     if last == "HANG":
         return "mutex:HANG"
+    if any(l.startswith("778") for l in impl_obs):
+        return "mutex:livelock"
     if any(l.startswith("777") for l in impl_obs):
         return "mutex:deadlock"
     for l in impl_obs:
@@ -179,3 +181,49 @@ def signature(case, impl_obs, model_obs):
         if len(a) == 4 and a[0] == "8" and a[1] != "0":
             return "mutex:overlap"
     return "mutex:oracle"
+
+
+# ---------------------------------------------------------------- ownership objects (engine mxo, harness seq_mutex_own.cpp)
+def gen_own(seed, tier, focus):
+    rng = random.Random(seed * 1000003 + (717 if focus == "mutex" else 818))
+    n = 500 if tier == "quick" else 6000
+    cases = []
+    def rop():
+        k = rng.choice([1, 1, 2, 2, 2, 3, 3, 4, 5, 5, 6, 7, 8])
+        m, i, j = rng.randint(0, 1), rng.randint(0, 3), rng.randint(0, 3)
+        return {1: [1, m, j], 2: [2, m, j], 3: [3, j], 4: [4, j], 5: [5, i, j], 6: [6, i, j], 7: [7, j], 8: [8, m]}[k]
+    for c in range(n):
+        style = rng.random()
+        ops = []
+        if style < 0.5:
+            ops = [rop() for _ in range(rng.randint(4, 24))]
+        elif style < 0.7:
+            # overwrite a holding ownership: by try_lock of the other mutex, by a callback grant, by a move, with waiters behind
+            a, b, j, i = rng.randint(0, 1), rng.randint(0, 1), rng.randint(0, 3), rng.randint(0, 3)
+            ops = [[1, a, j]] + [[2, a, rng.randint(0, 3)] for _ in range(rng.randint(0, 3))]
+            ops += [rng.choice([[1, 1 - a, j], [1, b, j], [2, 1 - a, j], [5, i, j], [1, 1 - a, i], [6, i, j]])]
+            ops += [[8, a], [8, 1 - a], [7, j]] + [rop() for _ in range(rng.randint(0, 8))]
+        elif style < 0.9:
+            # re-entrancy: the next waiter's callback stores its ownership into the slot that is being given up
+            a, j = rng.randint(0, 1), rng.randint(0, 3)
+            ops = [[1, a, j], [2, a, j]] + [[2, a, rng.choice([j, rng.randint(0, 3)])] for _ in range(rng.randint(0, 3))]
+            ops += [rng.choice([[3, j], [3, j], [1, 1 - a, j], [5, (j + 1) % 4, j], [1, a, j]])]
+            ops += [[7, j], [8, a], [3, j], [3, j], [8, a]] + [rop() for _ in range(rng.randint(0, 6))]
+        else:
+            # release twice, destroy, self move, moved-from
+            j, a = rng.randint(0, 3), rng.randint(0, 1)
+            ops = [[1, a, j], [3, j], [3, j], [7, j], [8, a], [1, a, j], [5, j, j], [7, j], [5, j, (j + 1) % 4], [7, j], [3, j],
+                   [8, a], [4, (j + 1) % 4], [8, a]] + [rop() for _ in range(rng.randint(0, 6))]
+        if rng.random() < 0.08:
+            ops.insert(rng.randrange(len(ops) + 1), rng.choice([[1, 2, 0], [3, 9], [5, 0], [0], [6, 1, 1], [8, -1], [2, 0, 4]]))
+        cases.append(Case("mxo", "%so%d" % (focus[0], c), ops))
+    return cases
+
+
+def nontrivial_own(case, model_obs):
+    kinds = set(o[0] for o in case.ops if o)
+    return len(case.ops) >= 5 and len(kinds) >= 3
+
+
+def nontrivial_any(case, model_obs):
+    return nontrivial_own(case, model_obs) if case.engine == "mxo" else nontrivial(case, model_obs)
